@@ -336,7 +336,7 @@ func TestVerif_C17(t *testing.T) {
 		}
 	}
 	// Part 2: random scripts
-	nrand := c.N(20000, 200000)
+	nrand := c.N(20000, 1000000)
 	for s := int64(0); s < nrand; s++ {
 		myIdx := idx
 		idx++
